@@ -5,7 +5,7 @@ import json
 import re
 from vlib import Check, read_ndjson, main, Undecided
 
-LANES = ["udp", "tcp", "tcp-pipe", "dot", "dot-pipe", "doh-h2", "doh-h3", "doq", "dnscrypt-udp", "dnscrypt-tcp"]
+LANES = ["udp", "tcp", "tcp-pipe", "dot", "dot-pipe", "doh-h2", "doh-h3", "doh-mixed", "doq", "dnscrypt-udp", "dnscrypt-tcp"]
 
 
 def segments(ev):
